@@ -24,13 +24,13 @@ REAL = {"Mtu": 1200, "InitCwnd": 12000, "InitRtt": 33000, "Gran": 1000, "MaxAckD
 def mc_parts(quick):
     # cc: established connection, application space, every flag / size / delay / ECN choice
     cc = dict(SMALL, MaxPk=3, MaxTotal=3, Sizes="{1, 2}", Dts="{1, 5}", Delays="{0, 2}", Ces="{1}", SendSpaces="{3}",
-              FlagSet="{1, 2, 3}", Established="TRUE", Horizon=12, MaxDepth=5 if quick else 6)
+              FlagSet="{1, 2, 3}", Established="TRUE", Horizon=12, MaxDepth=4 if quick else 6)
     # loss: established, full-size ack-eliciting packets only, deeper
     loss = dict(SMALL, MaxPk=4, MaxTotal=4, Sizes="{2}", Dts="{1, 5}", Delays="{0}", Ces="{}", SendSpaces="{3}",
-                FlagSet="{1, 3}", Established="TRUE", Horizon=12, MaxDepth=6 if quick else 8)
+                FlagSet="{1, 3}", Established="TRUE", Horizon=12, MaxDepth=5 if quick else 8)
     # hs: the three spaces from the start of the handshake, both roles, phases, discards
     hs = dict(SMALL, MaxPk=2, MaxTotal=3, Sizes="{2}", Dts="{2, 13}", Delays="{0}", Ces="{}", SendSpaces="{1, 2, 3}",
-              FlagSet="{1, 3}", Established="FALSE", Horizon=14, MaxDepth=5 if quick else 7)
+              FlagSet="{1, 3}", Established="FALSE", Horizon=14, MaxDepth=4 if quick else 7)
     live = dict(SMALL, MaxPk=2, MaxTotal=2, Sizes="{2}", Dts="{3}", Delays="{0}", Ces="{}", SendSpaces="{3}",
                 FlagSet="{1}", Established="TRUE", Horizon=3 if quick else 6, MaxDepth=0)
     return [("cc", cc, MC_SAFE), ("loss", loss, MC_SAFE), ("hs", hs, MC_SAFE), ("live", live, MC_LIVE)]
@@ -41,9 +41,9 @@ def gen_parts(quick):
     allops = '{"send", "gsend", "quota", "ack", "acktop", "adv", "tick", "discard", "phase"}'
     est_loss = dict(base, Start='"est"', Roles="{FALSE}", Depth=5 if quick else 6, MaxPk=4, GSizes="{1200}", GDts="{10000}", GDelays="{0}",
                     GCes="{}", GSpaces="{3}", GFlagSet="{1}", Ops='{"send", "ack", "adv", "tick"}')
-    est_cc = dict(base, Start='"est"', Roles="{TRUE}", Depth=7 if quick else 8, Script="<- ScriptCc" if quick else "<- ScriptCc2", MaxPk=3,
+    est_cc = dict(base, Start='"est"', Roles="{TRUE}", Depth=7, Script="<- ScriptCc", MaxPk=3,
                   GSizes="{1200}", GDts="{10000, 60000}", GDelays="{8000}" if quick else "{0, 8000}", GCes="{1}", GSpaces="{3}", GFlagSet="{1, 2, 3}", Ops=allops)
-    hs = dict(base, Start='"fresh"', Depth=6 if quick else 7, Script="<- ScriptHs" if quick else "<- ScriptHs2", MaxPk=2, GSizes="{1200}", GDts="{60000}",
+    hs = dict(base, Start='"fresh"', Depth=6, Script="<- ScriptHs", MaxPk=2, GSizes="{1200}", GDts="{60000}" if quick else "{60000, 200000}",
               GDelays="{0}", GCes="{}", GSpaces="{1, 2, 3}", GFlagSet="{1}", Ops=allops)
     loss4 = dict(est_loss, Depth=7 if quick else 9, Script="<- ScriptLoss" if quick else "<- ScriptLoss2", Ops=allops)
     pto = dict(hs, Depth=8 if quick else 10, Script="<- ScriptPto" if quick else "<- ScriptPto2", GDts="{150000}" if quick else "{150000, 400000}")
@@ -58,7 +58,7 @@ def sim_parts(quick):
                     Ops='{"send", "gsend", "burst", "quota", "ack", "acktop", "adv", "tick"}')
     deep_hs = dict(base, Start='"fresh"', BurstMode="TRUE", Depth=40,
                    Ops='{"send", "gsend", "quota", "ack", "acktop", "adv", "tick", "discard", "phase"}')
-    n = 100 if quick else 3000
+    n = 80 if quick else 1000
     return [("walks/est", deep_est, {"num": n, "depth": 70}), ("walks/handshake", deep_hs, {"num": n, "depth": 50})]
 
 
@@ -117,6 +117,8 @@ def run(tier, rep):
             g["behaviours"] = thin(beh, 3)
         rep.add_mc("Gen_Recovery/" + part, g)
         _drive_validate(rep, part, beh)
+    # the recorded failing inputs of the findings (regression seeds), judged like every other schedule
+    _drive_validate(rep, "scenarios", os.path.join(vlib.ROOT, "checks", "c13_scenarios.ndjson"))
     sigs = {}
     for sig, _, _ in rep.violations:
         sigs[sig] = sigs.get(sig, 0) + 1
